@@ -549,16 +549,17 @@ func (s *cstore) selfConsistent(n int, marker uint64) string {
 // one run
 
 type crashRun struct {
-	viol     string // "" = the monitor found nothing
-	total    int    // counted FS operations when the workload ended / was stopped
-	openEnd  int    // counted FS operations of opening the store
-	spans    []span // executed workload operations and their FS operation ranges
-	trace    []string
-	inflight string // "open", an operation kind, "after" (cut after the workload) or "" (no cut)
-	sideA    bool   // some replica recovered to the acknowledged state only
-	sideB    bool   // some replica recovered with the interrupted operation visible
-	leaked   int
-	timing   time.Duration
+	viol        string // "" = the monitor found nothing
+	total       int    // counted FS operations when the workload ended / was stopped
+	openEnd     int    // counted FS operations of opening the store
+	spans       []span // executed workload operations and their FS operation ranges
+	trace       []string
+	inflight    string // "open", an operation kind, "after" (cut after the workload) or "" (no cut)
+	sideA       bool   // some replica recovered to the acknowledged state only
+	sideB       bool   // some replica recovered with the interrupted operation visible
+	importEmpty bool   // tan ImportSnapshot interrupted between the removal and the new record
+	leaked      int
+	timing      time.Duration
 }
 
 type span struct {
@@ -748,6 +749,24 @@ func runCrash1(kind string, mlfs int64, ops []op, cut int, record bool) (res cra
 		}
 		return msg
 	}
+	// tan's ImportSnapshot (the offline repair tool) is remove-everything followed by
+	// one record: interrupted in between it leaves the replica EMPTY (the old data is
+	// to be discarded anyway, the import is re-run). That intermediate state is
+	// accepted for the imported replica of a tan store, and only there.
+	if isTanKind(kind) && inflightOp != nil && inflightOp.Kind == "IMPORT" {
+		n := inflightOp.N
+		if !matchA[n] && !matchB[n] {
+			candC := candA
+			candC.apply(op{Kind: "REMNODE", N: n})
+			wantC := expected(n, &candC)
+			gotC := s.observe(n, &candC, &wantC)
+			if sameObs(gotC, wantC, nil) {
+				candB = candC
+				gotB[n], matchB[n] = gotC, true
+				res.importEmpty = true
+			}
+		}
+	}
 	for n := 0; n < numNodes; n++ {
 		if !matchA[n] && !matchB[n] {
 			for _, m := range []uint64{candA.nodes[n].marker, candB.nodes[n].marker} {
@@ -921,6 +940,9 @@ func runCrashLines(lines []string, tier string, obs *vh.LineWriter, st *vh.Stats
 				default:
 					nontrivial = true
 					st.Count("crash.inflight." + r.inflight)
+				}
+				if r.importEmpty {
+					st.Count("crash.tan-import-intermediate-empty")
 				}
 				if r.viol == "" {
 					switch {
